@@ -30,6 +30,8 @@ type SpecEnv struct {
 	info  *types.Info
 	loop  *ssa.BasicBlock // loop head for rangeindex lookup
 	label string
+	tparams map[*types.TypeParam]types.Type
+	logicalBound []*Term
 }
 
 type parsedClause struct {
@@ -161,15 +163,64 @@ func (e *SpecEnv) evalAny(text string) Val {
 
 func (e *SpecEnv) typeOf(x ast.Expr) types.Type {
 	if tv, ok := e.info.Types[x]; ok {
-		return tv.Type
+		return e.resolve(tv.Type)
 	}
 	if id, ok := x.(*ast.Ident); ok {
 		if o := e.info.Uses[id]; o != nil {
-			return o.Type()
+			return e.resolve(o.Type())
 		}
 	}
 	e.fail("no type for expression")
 	return nil
+}
+
+// resolve substitutes the type parameters of a generic function by the type arguments of the
+// instance under verification.
+func (e *SpecEnv) resolve(t types.Type) types.Type {
+	if len(e.tparams) == 0 {
+		return t
+	}
+	return substType(t, e.tparams)
+}
+
+func substType(t types.Type, m map[*types.TypeParam]types.Type) types.Type {
+	switch x := t.(type) {
+	case *types.TypeParam:
+		if r, ok := m[x]; ok {
+			return r
+		}
+		// match by name+index (method receivers re-declare their type parameters)
+		for k, r := range m {
+			if k.Obj().Name() == x.Obj().Name() && k.Index() == x.Index() {
+				return r
+			}
+		}
+		return t
+	case *types.Pointer:
+		return types.NewPointer(substType(x.Elem(), m))
+	case *types.Slice:
+		return types.NewSlice(substType(x.Elem(), m))
+	case *types.Named:
+		if x.TypeArgs().Len() == 0 {
+			return t
+		}
+		var targs []types.Type
+		changed := false
+		for i := 0; i < x.TypeArgs().Len(); i++ {
+			a := substType(x.TypeArgs().At(i), m)
+			if a != x.TypeArgs().At(i) {
+				changed = true
+			}
+			targs = append(targs, a)
+		}
+		if !changed {
+			return t
+		}
+		if inst, err := types.Instantiate(nil, x.Origin(), targs, false); err == nil {
+			return inst
+		}
+	}
+	return t
 }
 
 func (e *SpecEnv) state() *State {
@@ -724,6 +775,28 @@ func (e *SpecEnv) callFunc(o *types.Func, recv ast.Expr, args []ast.Expr) Val {
 		}
 		return &Agg{F: r}
 	}
+	// method of a type-parameter constraint resolved to the instance's concrete method
+	if recv != nil {
+		sig := o.Type().(*types.Signature)
+		if sig.Recv() != nil {
+			_, declOnIface := sig.Recv().Type().Underlying().(*types.Interface)
+			_, recvIsIface := argTypes[0].Underlying().(*types.Interface)
+			if declOnIface && !recvIsIface {
+				if sel := e.ex.prog.SSA.MethodSets.MethodSet(argTypes[0]).Lookup(o.Pkg(), o.Name()); sel != nil {
+					if cfn := e.ex.prog.SSA.MethodValue(sel); cfn != nil {
+						if c, ok := cfn.Object().(*types.Func); ok {
+							o = c
+						}
+						if con := e.ex.contractFor(cfn); con != nil && (con.Pure || con.PureHeap) {
+							return wrapVals(e.ex.pureApply(cfn, con, vals, e.state(), true))
+						} else if (con != nil && con.Inline) || cfn.Synthetic != "" {
+							return wrapVals(e.ex.inlineCall(e.frame, e.state().clone(), cfn, vals, nil))
+						}
+					}
+				}
+			}
+		}
+	}
 	// interface method?
 	if recv != nil {
 		if _, isI := argTypes[0].Underlying().(*types.Interface); isI {
@@ -735,6 +808,11 @@ func (e *SpecEnv) callFunc(o *types.Func, recv ast.Expr, args []ast.Expr) Val {
 		}
 	}
 	fn := e.ex.prog.SSA.FuncValue(o)
+	if fn == nil && recv != nil {
+		if sel := e.ex.prog.SSA.MethodSets.MethodSet(argTypes[0]).Lookup(o.Pkg(), o.Name()); sel != nil {
+			fn = e.ex.prog.SSA.MethodValue(sel)
+		}
+	}
 	if fn != nil {
 		if con := e.ex.contractFor(fn); con != nil && (con.Pure || con.PureHeap) {
 			r := e.ex.pureApply(fn, con, vals, e.state(), true)
@@ -808,4 +886,12 @@ func findEltOffset(t, k *Term) *Term {
 	}
 	rec(t)
 	return found
+}
+
+
+func wrapVals(r []Val) Val {
+	if len(r) == 1 {
+		return r[0]
+	}
+	return &Agg{F: r}
 }
